@@ -18,7 +18,7 @@ CodeOfVal(v) == CASE v = "0" -> 0 [] v = "2" -> 2 [] v = "5" -> 5 [] v = "14" ->
 \* what the property text determines; "unspecified" = the text is silent (e.g. OK in the headers followed by a body)
 Class == IF pt.hs \notin {"none", "0"} THEN "error_from_headers"
          ELSE IF pt.hs = "0" THEN "unspecified"
-         ELSE IF pt.ts \in {"2", "5", "14", "bad"} /\ pt.http = 200 THEN "error_from_trailers"
+         ELSE IF pt.ts \in {"2", "5", "14", "bad"} THEN "error_from_trailers"     \* whatever the HTTP status: a grpc-status is available
          ELSE IF pt.ts \in {"absent", "nostatus"} /\ pt.http # 200 THEN "error_from_http_status"
          ELSE IF pt.ts = "0" /\ pt.http = 200 THEN "ok_if_shape_allows"
          ELSE "unspecified"
